@@ -680,8 +680,11 @@ def execute(case, want_output=True):
         if blk["inplace"]:
             # do two slots this block writes hold tensors on one storage (tied object, or aliases such as params.data)?
             snap = {(mid, n): r for mid, ps_, bs_, at_ in raw_snapshot(env) for n, r in ps_ + bs_ + at_ if r is not None}
-            st = [snap[s_][4] for s_ in actual_memo_slots({"spec": case["spec"], "blocks": [blk]}) if s_ in snap]
+            refs = [snap[s_] for s_ in actual_memo_slots({"spec": case["spec"], "blocks": [blk]}) if s_ in snap]
+            st = [r[4] for r in refs]
             B["occ_tied"] = len(set(st)) != len(st)
+            # ... and are two of them DISTINCT objects (aliases through storage, not one tied object)?
+            B["occ_alias"] = len({r[4] for r in refs}) != len({(r[0], r[1]) for r in refs})
         try:
             if temp[i]:
                 # `with <temporary>.to_module(target):` -- the source is described (its leaves stay alive in env, the
@@ -933,9 +936,11 @@ def classify_restore_failure(case, res, i, value_level=False):
     d = diff_maps(B["before"], B["after"])
     base = {"call": "to_module as context manager"}
     untouched = "pre_exit" in B and same_maps(B["pre_exit"], B["after"]) and same_vals(B["pre_exit"], B["after"])
-    if value_level and blk["inplace"] is True and (tied_inplace(case, i) or B.get("occ_tied")):
+    if value_level and blk["inplace"] is True and B.get("occ_alias"):
+        # two DISTINCT tensor objects on one storage under two swapped names (D137). One tied OBJECT under two names
+        # was D134: repaired (PENDING-D134), no attribution any more -- a recurrence is reported as 'other-values'.
         # (checked first: with equal supplied values 'first supplied value left behind' and 'nothing undone' look alike)
-        return [(dict(base, defect="inplace-tied-values-not-restored", site="_td._set_tensor_dict"), [])]
+        return [(dict(base, defect="inplace-storage-aliased-values-not-restored", site="_td._set_tensor_dict"), [])]
     if blk["swap_dest"] and B.get("exit") == "TypeError" and untouched and not blk["manual"]:
         # the inverse was attempted (whatever the body did) and died on the repeated keyword before touching the module
         return [(dict(base, defect="swap_dest-kwarg-repeated-on-exit", site="_contextlib._reverse_to_module"), sorted(d))]
@@ -944,8 +949,6 @@ def classify_restore_failure(case, res, i, value_level=False):
         # the body's exception propagates unchanged
         return [(dict(base, defect="exit-on-exception-skips-restore", site="TensorDictBase.__exit__"), sorted(d))]
     if value_level:
-        if tied_inplace(case, i):
-            return [(dict(base, defect="inplace-tied-values-not-restored", site="_td._set_tensor_dict"), [])]
         return [(dict(base, defect="other-values"), [])]
     pats = {}
     env = res["env"]
@@ -956,13 +959,12 @@ def classify_restore_failure(case, res, i, value_level=False):
         rewrapped = (blk["usd"] and isinstance(now, T["torch"].Tensor) and now is not before_obj
                      and kind_of(before_obj) in ("P", "B") and kind_of(now) == kind_of(before_obj)
                      and now.data_ptr() == before_obj.data_ptr())
-        if wa == "buffer" and wb is None and (now is before_obj or rewrapped) and kind_of(inside_obj) == "P":
-            pats.setdefault("buffer-slot-given-Parameter", []).append(n)
-        elif wa == wb and wa is not None and rewrapped:
+        # (a buffer that ended in __dict__ after its slot was given an nn.Parameter was D131: repaired, PENDING-D131)
+        if wa == wb and wa is not None and rewrapped:
             pats.setdefault("use_state_dict-rewraps-parameters", []).append(n)
         else:
             pats.setdefault("other", []).append(n)
-    sites = {"buffer-slot-given-Parameter": "_td._set_tensor_dict", "use_state_dict-rewraps-parameters": "_td.TensorDict._to_module"}
+    sites = {"use_state_dict-rewraps-parameters": "_td.TensorDict._to_module"}
     return [(dict(base, defect=k, **({"site": sites[k]} if k in sites else {})), v) for k, v in sorted(pats.items())]
 
 
